@@ -374,11 +374,13 @@ def c17(budget, timeout=1800):
 PROPS["C17"] = dict(
     title="Introspection describes exactly the configured schema",
     level_text="bounded symbolic execution of the real introspection generator, the JSON converter, astprinter and astparser on solver-chosen generated schemas: the generated introspection data, described through the package's own data structures, equals a description written by the schema generator itself independently of any AST code (types, fields, argument types, default values, enum values, interfaces, possible types, directives with locations and repeatability, descriptions, deprecations - nothing missing or invented), and marshal -> converter -> print -> parse -> generate reproduces the same data for all types including the built-in ones",
-    level_note="bounds: generated schema family with a feature budget; type extensions, subscription root, deeply nested input defaults beyond the listed shapes, and the __schema/__type answers served through the engine's introspection datasource are not covered; encoding/json is the engine's model (validated against native encoding/json by the SELF check); trusted base: gosym, the generator-written description",
+    level_note="bounds: generated schema family with a feature budget; type extensions, subscription root, deeply nested input defaults beyond the listed shapes, the __schema/__type answers through the engine are covered by H-C17b for one schema and 14 queries; encoding/json is the engine's model (validated against native encoding/json by the SELF check); trusted base: gosym, the generator-written description",
     design_ref="DESIGN.md §4 C17",
     assumptions=["directive locations are compared as a set"],
     stubs=["encoding/json Marshal / Decoder.Decode: engine model"],
-    quick=[c17(2)],
+    quick=[c17(2),
+           spec("H-C17b", "./pkg/engine/datasource/introspection_datasource", ["introds/c17_engine.go", "common/zz_json.go", "common/zz_exec.go"], "VerifC17Engine", [],
+                "introspection through the engine on one rich schema (custom root names, scalar with specifiedBy, deprecated enum value / field / argument / input field, interface implementing interface, union, repeatable directive, nested list defaults): 14 queries over __type and __schema (kinds, nested ofType chains, includeDeprecated on fields/enumValues/args/inputFields, unknown type, aliases); real config factory, planner, resolver (SkipArrayItem for deprecation) and data source Load; oracle = reference executor on the generated introspection data read as an object graph", ["compared"])],
     thorough=[c17(4, 3000)],
 )
 
